@@ -7,7 +7,7 @@ process on port 0 or a temp unix path; the forking server in a subprocess, becau
 main thread of their own), executes one op at a time with real client sockets, and renders what can be
 observed in the text form the driver prints:
 
-    <obs>|L<0/1> A<0/1> c<n> f<n> p<n> q<n> fd<n> ch<n>|<k>:<E|->:<inst|->:<conn hooks>:<disc hooks> ...
+    <obs>|L<0/1> A<0/1> c<n> f<n> p<n> q<n> fd<n> ch<n> n<n>|<k>:<E|->:<inst|->:<conn hooks>:<disc hooks> ...
 
 obs      what the acting client saw (ok / refused / pong / ref / resolved / keyerr / eof / timeout / leak / hang)
 L A      listener open; thread running `start()` alive
@@ -15,6 +15,8 @@ c f p q  len(server.clients), len(fd_to_conn), descriptors registered with the p
          a wrapper installed on the instance), descriptors waiting in the pool's active queue
 fd       descriptors the server process holds beyond its baseline and beyond the harness's own client sockets
 ch       forking: live child processes
+n        complete frames the server-side connections have consumed so far (a progress counter: a class-level wrapper
+         around `Connection.serve` installed by the harness for the duration of a case, never in /repo)
 per client: has it seen end-of-stream (or closed itself); index of its service instance in order of creation;
          how often on_connect / on_disconnect ran for that instance
 
@@ -104,7 +106,8 @@ def make_service(record):
         def exposed_make(self, k):
             o = Obj(k)
             self.lent.append(o)
-            return o
+            self.marks.append(k)
+            return tuple(self.marks), o
 
     return VerifService
 
@@ -146,6 +149,74 @@ class PollRecorder(object):
         return self.inner.poll(timeout)
 
 
+# ------------------------------------------------------------------------------------------ progress counter
+FRAMES = [0]
+_frame_sink = [None]
+_orig_serve = [None]
+
+
+def install_frame_counter(sink=None):
+    """count the complete frames the server-side connections consume: `Connection.serve` returning True or raising
+    anything but EOFError.  Class-level wrappers put in place by the harness at run time (never in /repo); server-side
+    connections are those created with `endpoints` in their configuration (what all four servers do).  Requests that are
+    the client library's own housekeeping (GETROOT, INSPECT of a new proxy class, DEL of a dropped proxy) are not
+    counted, so that one call of a well-behaved client is one frame."""
+    from rpyc.core import brine, consts
+    from rpyc.core.protocol import Connection
+    if _orig_serve[0] is not None:
+        return
+    orig, orig_dispatch = Connection.serve, Connection._dispatch
+    _orig_serve[0] = (orig, orig_dispatch)
+    _frame_sink[0] = sink
+    skip = (consts.HANDLE_GETROOT, consts.HANDLE_INSPECT, consts.HANDLE_DEL)
+    tls = threading.local()
+
+    def count(conn):
+        try:
+            if conn._config.get("endpoints") is None:
+                return
+        except Exception:  # noqa
+            return
+        if getattr(tls, "skip", False):
+            return
+        if _frame_sink[0] is not None:
+            _frame_sink[0]()
+        else:
+            FRAMES[0] += 1
+
+    def _dispatch(self, data):
+        try:
+            v = brine.load(data)
+            if v[0] == consts.MSG_REQUEST and v[2][0] in skip:
+                tls.skip = True
+        except Exception:  # noqa
+            pass
+        return orig_dispatch(self, data)
+
+    def serve(self, timeout=1, wait_for_lock=True):
+        tls.skip = False
+        try:
+            r = orig(self, timeout, wait_for_lock)
+        except EOFError:
+            raise
+        except BaseException:
+            count(self)
+            raise
+        if r:
+            count(self)
+        return r
+    Connection.serve = serve
+    Connection._dispatch = _dispatch
+
+
+def uninstall_frame_counter():
+    from rpyc.core.protocol import Connection
+    if _orig_serve[0] is not None:
+        Connection.serve, Connection._dispatch = _orig_serve[0]
+        _orig_serve[0] = None
+        _frame_sink[0] = None
+
+
 # ------------------------------------------------------------------------------------------ backends
 class InProcBackend(object):
     """threaded / pool / one-shot server in this process"""
@@ -169,6 +240,8 @@ class InProcBackend(object):
             kw["authenticator"] = authenticator
         if kind == "pool":
             kw["nbThreads"] = nb
+        install_frame_counter()
+        self.base_frames = FRAMES[0]
         self.base_fds = nfds()
         try:
             if transport == "unix":
@@ -198,7 +271,7 @@ class InProcBackend(object):
         return dict(L=int(listening), A=int(self.thread.is_alive()), c=len(srv.clients),
                     f=len(getattr(srv, "fd_to_conn", ())),
                     p=len(srv.poll_object.registered) if self.kind == "pool" else 0, q=q,
-                    fds=nfds() - self.base_fds, ch=0)
+                    fds=nfds() - self.base_fds, ch=0, n=FRAMES[0] - self.base_frames)
 
     def hook_table(self):
         with self.lock:
@@ -285,14 +358,19 @@ class ForkBackend(object):
         st = self._cmd("stat")
         if st.get("returned"):
             self.returned = True
-        return dict(L=st["L"], A=int(not self.returned), c=st["c"], f=0, p=0, q=0, fds=st["fds"], ch=st["ch"])
+        n = 0
+        with open(self.hookfile) as f:
+            for line in f:
+                if line.startswith("f\t"):
+                    n += 1
+        return dict(L=st["L"], A=int(not self.returned), c=st["c"], f=0, p=0, q=0, fds=st["fds"], ch=st["ch"], n=n)
 
     def hook_table(self):
         out = []
         with open(self.hookfile) as f:
             for line in f:
                 parts = line.rstrip("\n").split("\t")
-                if len(parts) == 3:
+                if len(parts) == 3 and parts[0] in ("c", "d"):
                     out.append((parts[0], parts[1], parts[2]))
         return out
 
@@ -351,6 +429,14 @@ def forking_child_main(argv):
         finally:
             os.close(fd)
     service = make_service(record)
+
+    def frame_sink():
+        fd = os.open(hookfile, os.O_WRONLY | os.O_APPEND)
+        try:
+            os.write(fd, b"f\t-\t-\n")
+        finally:
+            os.close(fd)
+    install_frame_counter(frame_sink)
     kw = dict(auto_register=False, logger=quiet_logger())
     if auth == "T":
         kw["authenticator"] = authenticator
@@ -414,6 +500,7 @@ class Client(object):
         self.eof = False
         self.peer = None
         self.refs = []
+        self.npings = 0
 
     def connect(self, cred):
         be = self.sess.backend
@@ -456,20 +543,26 @@ class Client(object):
             return "eof"
         conn = self.wrap()
         try:
+            from rpyc.core import consts as _c, netref as _nr
             if what == "ping":
-                res = conn.root.mark(self.k)
-                return "pong" if set(res) == {self.k} else "leak"
+                # one self-contained frame, no proxies involved
+                self.npings += 1
+                data = b"ping-%d-%d" % (self.k, self.npings)
+                res = conn.sync_request(_c.HANDLE_PING, data)
+                return "pong" if res == data else "wrong:%r" % (res,)
             if what == "lend":
-                ref = conn.root.make(self.k)
+                # one counted request (`conn.root` costs GETROOT + INSPECT once per connection: housekeeping, not counted);
+                # the service instance answers with everything it was ever asked to mark and a fresh object by reference
+                marks, ref = conn.sync_request(_c.HANDLE_CALLATTR, conn.root, "make", (self.k,), ())
                 self.refs.append(ref)
                 self.sess.lends.append((self.k, object.__getattribute__(ref, "____id_pack__")))
-                return "ref"
+                return "ref" if set(marks) == {self.k} else "leak"
             if what == "probe":
-                from rpyc.core import consts
+                # use an object id on THIS connection: a hand-made proxy (no INSPECT round trip), one HANDLE_STR request
+                proxy = _nr.class_factory(arg, ())(conn, arg)
+                self.refs.append(proxy)
                 try:
-                    p = conn._unbox((consts.LABEL_REMOTE_REF, arg))
-                    str(p)
-                    self.refs.append(p)
+                    conn.sync_request(_c.HANDLE_STR, proxy)
                     return "resolved"
                 except KeyError:
                     return "keyerr"
@@ -583,6 +676,9 @@ class Session(object):
         self.tmpdir = tempfile.mkdtemp(prefix="rpycverif-")
         self.clients = {}
         self.lends = []
+        self.proc_fds = nfds()
+        self.proc_threads = threading.active_count()
+        self.residue = None
         self.prev_hook = threading.excepthook
         threading.excepthook = lambda args: None       # serving threads die of hostile input by design
         try:
@@ -668,8 +764,8 @@ class Session(object):
             h = per.get(c.peer, dict(inst=None, c=0, d=0))
             cl.append("%d:%s:%s:%d:%d" % (k, "E" if c.sees_eof() else "-", "-" if h["inst"] is None else h["inst"],
                                           h["c"], h["d"]))
-        return "L%d A%d c%d f%d p%d q%d fd%d ch%d|%s" % (snap["L"], snap["A"], snap["c"], snap["f"], snap["p"], snap["q"],
-                                                         snap["fds"], snap["ch"], " ".join(cl))
+        return "L%d A%d c%d f%d p%d q%d fd%d ch%d n%d|%s" % (snap["L"], snap["A"], snap["c"], snap["f"], snap["p"],
+                                                             snap["q"], snap["fds"], snap["ch"], snap["n"], " ".join(cl))
 
     def step(self, tok, expect=None, ceiling=CEILING, settle=0.02):
         """do one op, then wait until the observable state equals `expect` (text after the first '|') and stays so for
@@ -702,6 +798,14 @@ class Session(object):
         try:
             self.backend.teardown()
         finally:
+            # isolation: the next case starts only when this one's threads and descriptors are gone
+            if wait_for(lambda: threading.active_count() <= self.proc_threads and nfds() <= self.proc_fds, 5.0) is None:
+                import gc
+                gc.collect()
+                if wait_for(lambda: threading.active_count() <= self.proc_threads and nfds() <= self.proc_fds, 2.0) is None:
+                    self.residue = "after teardown: threads %d (was %d), descriptors %d (was %d)" % (
+                        threading.active_count(), self.proc_threads, nfds(), self.proc_fds)
+            uninstall_frame_counter()
             threading.excepthook = self.prev_hook
             shutil.rmtree(self.tmpdir, ignore_errors=True)
 
